@@ -266,11 +266,8 @@ def stored_names(nodes: Iterable[ast.AST]) -> tuple[set[str], set[str]]:
         elif isinstance(n, (ast.Attribute, ast.Subscript)) and isinstance(n.ctx, (ast.Store, ast.Del)):
             base = n.value
             paths.add(ast.unparse(base))
-            root = base
-            while isinstance(root, (ast.Attribute, ast.Subscript)):
-                root = root.value
-            if isinstance(root, ast.Name):
-                paths.add(root.id) if isinstance(base, ast.Name) else None
+            if isinstance(n, ast.Subscript) and isinstance(base, ast.Name):
+                names.add(base.id)  # x[k] = v / del x[k] changes the object bound to x
         elif isinstance(n, ast.Call) and isinstance(n.func, ast.Attribute) and n.func.attr in MUTATING_METHODS:
             base = n.func.value
             if isinstance(base, ast.Name):
@@ -321,6 +318,7 @@ class Flow:
         self._loops: list[ast.AST] = []
         self._stmt: ast.stmt = func.node
         self._shadow: list[set[str]] = []
+        self.inline_exclude: frozenset[str] = frozenset()
         self._collect_alldefs()
         init = State([Alt(dict(closure_env or {}), {})])
         out = self._block(func.node.body, init)
@@ -380,9 +378,10 @@ class Flow:
                 if isinstance(node.func, ast.Name) and node.func.id.startswith("__"):
                     return node
                 callee = flow._resolve_callee(node)
-                if callee is None or callee.node is flow.func.node:
+                excl = flow.inline_exclude | {flow.func.key}
+                if callee is None or callee.node is flow.func.node or callee.key in excl:
                     return node
-                rets = _return_cones(callee, flow.repo, depth - 1)
+                rets = _return_cones(callee, flow.repo, depth - 1, frozenset(excl))
                 if not rets:
                     return node
                 params = callee.params
@@ -395,7 +394,7 @@ class Flow:
                     if kw.arg:
                         sub[kw.arg] = kw.value
                 inl = [expand(copy.deepcopy(r), sub) for r in rets]
-                if sum(_size(x) for x in inl) > 4 * MAX_EXPR_NODES:
+                if sum(_size(x) for x in inl) > 40 * MAX_EXPR_NODES:
                     return node
                 return ast.Call(ast.Name("__inl__", ast.Load()), [node, *inl], [])
 
@@ -456,6 +455,14 @@ class Flow:
                             if isinstance(t, ast.Subscript):
                                 extra.append(t.slice)
                             add(root.id, ast.Call(ast.Name("__store__", ast.Load()), extra, []))
+            if isinstance(n, ast.Delete):
+                for t in n.targets:
+                    if isinstance(t, ast.Subscript):
+                        root = t.value
+                        while isinstance(root, (ast.Subscript, ast.Attribute)):
+                            root = root.value
+                        if isinstance(root, ast.Name):
+                            add(root.id, ast.Call(ast.Name("__del__", ast.Load()), [t.slice], []))
             if isinstance(n, ast.match_case):
                 for sub in ast.walk(n.pattern):
                     if isinstance(sub, (ast.MatchAs, ast.MatchStar)) and sub.name:
@@ -585,9 +592,9 @@ class Flow:
             # nested function of the current (or enclosing) function
             cur: Func | None = self.func
             while cur is not None:
-                for n in ast.walk(cur.node):
-                    if isinstance(n, ast.FunctionDef) and n is not cur.node and n.name == f.id:
-                        return Func(f.id, f"{cur.qualname}.<locals>.{f.id}", n, cur.module, cur.cls, cur)
+                n = _nested_defs(cur).get(f.id)
+                if n is not None:
+                    return Func(f.id, f"{cur.qualname}.<locals>.{f.id}", n, cur.module, cur.cls, cur)
                 cur = cur.parent
             m = self.func.module
             if f.id in m.funcs:
@@ -1042,6 +1049,17 @@ class Flow:
         )
 
 
+_NESTED_CACHE: dict[int, dict[str, ast.FunctionDef]] = {}
+
+
+def _nested_defs(f: Func) -> dict[str, ast.FunctionDef]:
+    d = _NESTED_CACHE.get(id(f.node))
+    if d is None:
+        d = {n.name: n for n in ast.walk(f.node) if isinstance(n, ast.FunctionDef) and n is not f.node}
+        _NESTED_CACHE[id(f.node)] = d
+    return d
+
+
 def _GLOBALISH(f: Func) -> set[str]:
     m = f.module
     import builtins
@@ -1121,16 +1139,17 @@ def _unpack(value: ast.expr | None, n: int) -> list[ast.expr | None]:
 
 # --------------------------------------------------------------------------- helper summaries
 
-_RETURN_CACHE: dict[tuple[str, int, int], list[ast.expr]] = {}
+_RETURN_CACHE: dict[tuple, list[ast.expr]] = {}
 
 
-def _return_cones(f: Func, repo: Repo | None, depth: int) -> list[ast.expr]:
-    key = (f.key, id(f.node), depth)
+def _return_cones(f: Func, repo: Repo | None, depth: int, exclude: frozenset[str] = frozenset()) -> list[ast.expr]:
+    key = (f.key, id(f.node), depth, exclude)
     if key in _RETURN_CACHE:
         return _RETURN_CACHE[key]
     _RETURN_CACHE[key] = []
     try:
         fl = Flow(f, repo, inline_depth=0)
+        fl.inline_exclude = exclude
     except AnalysisError:
         return []
     out: list[ast.expr] = []
